@@ -4,6 +4,7 @@ import (
 	"bytes"
 	"context"
 	"errors"
+	"fmt"
 	"io"
 	"sync"
 	"time"
@@ -309,29 +310,38 @@ func c07(c *hx.Ctx) {
 	for i := 0; i < c.N; i++ {
 		inputs = append(inputs, genHeader(c, i))
 	}
-	for _, in := range inputs {
-		chunks, cname := chunksFor(c, len(in.data))
-		de := c.Rng.Intn(4) == 0 // the last bytes arrive together with io.EOF
-		cls, pid, rest := runHeader(in.data, chunks, de)
-		desc := map[string]any{"kind": in.kind, "eof_with_last_read": de, "chunking": cname, "chunks": chunks, "data": hx.Hex(clip(in.data)), "len": len(in.data), "class": cls, "pid": hx.Hex(clip(pid)), "rest": hx.Hex(rest)}
-		c.Case(hx.App("Hdr", hx.Bool(de), natList(chunks), hx.Bytes(in.data), hx.Nat(cls), hx.Bytes(pid), hx.Bytes(rest)), desc)
-		c.Class(in.kind + "/" + cname)
-		if de {
-			c.Class("eof-with-last-read/" + in.kind)
-		}
-		c.Class("outcome-" + map[int]string{0: "accepted", 1: "eof", 2: "header-error", 7: "empty-pid", 8: "invalid-pid", 99: "panic"}[cls])
-		c.Nontrivial(in.kind + hx.Hex(clip(in.data)))
-		headerOracle(c, in, de, cls, pid, rest, desc)
-		// chunking independence, directly: the other two styles must give the same result
-		for _, alt := range [][]int{c.Chunking(len(in.data), 0), nil} {
-			c2, p2, r2 := runHeader(in.data, alt, de)
-			c.Eval()
-			if c2 != cls || !bytes.Equal(p2, pid) || !bytes.Equal(r2, rest) {
-				c.Failf("header-depends-on-chunking", desc, "chunking %v gives class %d pid %x rest %x, chunking %v gives class %d pid %x rest %x", chunks, cls, pid, rest, alt, c2, p2, r2)
-			}
+	for k, in := range inputs {
+		k, in := k, in
+		if p, v := hx.Catch(func() { c07header(c, in) }); p {
+			c.Failf("scenario-panic", map[string]any{"kind": "c07/header", "index": k, "data": hx.Hex(clip(in.data)), "panic": fmt.Sprint(v)}, "header scenario %d panicked outside the guarded call of the implementation: %v", k, v)
 		}
 	}
-	c07dispatch(c)
+	if p, v := hx.Catch(func() { c07dispatch(c) }); p {
+		c.Failf("scenario-panic", map[string]any{"kind": "c07/dispatch", "panic": fmt.Sprint(v)}, "dispatch scenarios panicked: %v", v)
+	}
+}
+
+func c07header(c *hx.Ctx, in hdrInput) {
+	chunks, cname := chunksFor(c, len(in.data))
+	de := c.Rng.Intn(4) == 0 // the last bytes arrive together with io.EOF
+	cls, pid, rest := runHeader(in.data, chunks, de)
+	desc := map[string]any{"kind": in.kind, "eof_with_last_read": de, "chunking": cname, "chunks": chunks, "data": hx.Hex(clip(in.data)), "len": len(in.data), "class": cls, "pid": hx.Hex(clip(pid)), "rest": hx.Hex(rest)}
+	c.Case(hx.App("Hdr", hx.Bool(de), natList(chunks), hx.Bytes(in.data), hx.Nat(cls), hx.Bytes(pid), hx.Bytes(rest)), desc)
+	c.Class(in.kind + "/" + cname)
+	if de {
+		c.Class("eof-with-last-read/" + in.kind)
+	}
+	c.Class("outcome-" + map[int]string{0: "accepted", 1: "eof", 2: "header-error", 7: "empty-pid", 8: "invalid-pid", 99: "panic"}[cls])
+	c.Nontrivial(in.kind + hx.Hex(clip(in.data)))
+	headerOracle(c, in, de, cls, pid, rest, desc)
+	// chunking independence, directly: the other two styles must give the same result
+	for _, alt := range [][]int{c.Chunking(len(in.data), 0), nil} {
+		c2, p2, r2 := runHeader(in.data, alt, de)
+		c.Eval()
+		if c2 != cls || !bytes.Equal(p2, pid) || !bytes.Equal(r2, rest) {
+			c.Failf("header-depends-on-chunking", desc, "chunking %v gives class %d pid %x rest %x, chunking %v gives class %d pid %x rest %x", chunks, cls, pid, rest, alt, c2, p2, r2)
+		}
+	}
 }
 
 func clip(b []byte) []byte {
@@ -380,7 +390,7 @@ type fakeStream struct {
 	closed int
 }
 
-func (s *fakeStream) Write(b []byte) (int, error)       { return len(b), nil }
+func (s *fakeStream) Write(b []byte) (int, error)      { return len(b), nil }
 func (s *fakeStream) SetReadDeadline(time.Time) error  { return nil }
 func (s *fakeStream) SetWriteDeadline(time.Time) error { return nil }
 func (s *fakeStream) SetDeadline(time.Time) error      { return nil }
